@@ -351,13 +351,21 @@ def conversion_obligations(res: Result, tree, rule: str) -> int:
             if want:
                 # the branch returns a call wiring attributes (possibly through local variables)
                 local: Dict[str, str] = {}
+                impure: Dict[str, str] = {}
                 ret = None
-                for st in nd.body:
-                    if isinstance(st, ast.Assign) and isinstance(st.targets[0], ast.Name):
-                        attrs = [a.attr for a in ast.walk(st.value) if isinstance(a, ast.Attribute) and isinstance(a.value, ast.Name) and a.value.id == "spec"]
-                        if attrs:
-                            local[st.targets[0].id] = attrs[0]
-                    if isinstance(st, ast.Return):
+                for st in ast.walk(nd):
+                    if st is not nd and isinstance(st, ast.If) and st in getattr(nd, "orelse", []):
+                        continue
+                for st in _branch_stmts(nd.body):
+                    if isinstance(st, (ast.Assign, ast.AugAssign)) and isinstance(st.targets[0] if isinstance(st, ast.Assign) else st.target, ast.Name):
+                        tgt = (st.targets[0] if isinstance(st, ast.Assign) else st.target).id
+                        val = st.value
+                        pure = isinstance(st, ast.Assign) and _pure_relay(val)
+                        if tgt in local or tgt in impure or not pure:
+                            impure[tgt] = ast.unparse(st)[:70]
+                        if pure:
+                            local.setdefault(tgt, pure)
+                    if isinstance(st, ast.Return) and ret is None:
                         ret = st.value
                 ok = False
                 why = "no returned call"
@@ -367,6 +375,8 @@ def conversion_obligations(res: Result, tree, rule: str) -> int:
                         v = k.value
                         if isinstance(v, ast.Attribute) and isinstance(v.value, ast.Name) and v.value.id == "spec":
                             got[k.arg] = v.attr
+                        elif isinstance(v, ast.Name) and v.id in impure:
+                            got[k.arg] = f"<{v.id} modified before use: {impure[v.id]}>"
                         elif isinstance(v, ast.Name) and v.id in local:
                             got[k.arg] = local[v.id]
                     bad = {k: (got.get(k), v) for k, v in want.items() if got.get(k) != v}
@@ -382,3 +392,21 @@ def conversion_obligations(res: Result, tree, rule: str) -> int:
         res.add(rule, f.loc(), f"specs.{fname}", "nested specs are converted recursively child by child", rec, "recursive call present" if rec else "no recursion")
         count += 1
     return count
+
+
+def _branch_stmts(body):
+    for st in body:
+        yield st
+        for fld in ("body", "orelse"):
+            sub = getattr(st, fld, None)
+            if isinstance(sub, list) and not isinstance(st, (ast.FunctionDef, ast.Lambda)):
+                yield from _branch_stmts([x for x in sub if isinstance(x, ast.stmt)])
+
+
+def _pure_relay(e: ast.expr):
+    """'attr' when e is spec.<attr> or a shape-only wrapper (broadcast_to / asarray / array) of it."""
+    if isinstance(e, ast.Attribute) and isinstance(e.value, ast.Name) and e.value.id == "spec":
+        return e.attr
+    if isinstance(e, ast.Call) and ast.unparse(e.func).split(".")[-1] in ("broadcast_to", "asarray", "array") and e.args:
+        return _pure_relay(e.args[0])
+    return None
